@@ -265,7 +265,7 @@ func (cg *CallGraph) Reaches(root, target *ssa.Function, skip func(Edge) bool) (
 func (w *World) CallersOfKey(keys ...string) []ssa.CallInstruction {
 	var out []ssa.CallInstruction
 	for _, f := range w.RepoFns {
-		out = append(out, CallsTo(f, keys...)...)
+		out = append(out, OwnCallsTo(f, keys...)...)
 	}
 	return out
 }
